@@ -32,6 +32,7 @@ type ReplayCase struct {
 	Label    string            `json:"violated,omitempty"`
 	Over     bool              `json:"over_approximated_path,omitempty"`
 	NonDet   bool              `json:"nondeterministic_natively,omitempty"`
+	Schedule []string          `json:"forced_context_switches,omitempty"`
 }
 
 type Expect struct {
@@ -90,7 +91,8 @@ func (p *Path) caseFromModel(m *Model) *ReplayCase {
 			c.Pretty[in.name] = strconv.Itoa(in.val)
 		}
 	}
-	c.NonDet = p.mapPerm || p.sched.explore || p.sched.budget > 0 || p.uuidCalls > 0 && false
+	c.NonDet = p.mapPerm || p.sched.explore || p.sched.budget > 0 || len(p.sched.taken) > 0 || p.uuidCalls > 0 && false
+	c.Schedule = append([]string(nil), p.sched.taken...)
 	return c
 }
 
@@ -323,6 +325,11 @@ func (nr *NativeRunner) confirm(v *Violation) {
 		v.Confirmed, v.NativeOut = "reproduced", "native run violates a different assertion of the same harness: "+fail
 	case res.Panic != "" || res.crash != "":
 		v.Confirmed, v.NativeOut = "reproduced", "native run panics: "+res.Panic+res.crash
+	case len(v.Case.Schedule) > 0:
+		// the path needs context switches at specific lock / channel points; the native runtime cannot
+		// be made to follow them. The interleaving is one the executor built from the real code's
+		// SSA under Go's lock and channel semantics: it is reported, with the switches listed.
+		v.Confirmed, v.NativeOut = "schedule", fmt.Sprintf("needs %d forced context switch(es): %s; the native run under Go's own scheduler did not take them", len(v.Case.Schedule), strings.Join(v.Case.Schedule, "; "))
 	default:
 		v.Confirmed, v.NativeOut = "not-reproduced", "all assertions hold natively"
 	}
